@@ -100,7 +100,7 @@ def main():
     cands += K.k_from_json_type(R, depth)
     # use sites: response fields, variables, input-object members, @oneOf variants (names, qualifiers, options symbolic)
     uq = 2 if tier == 'quick' else 3
-    use_cands = [c for c in R.run_parallel([(K.k_render_field, (uq, {'C13'})), (K.k_variable_field, (uq,)), (K.k_input_member, ('struct', uq)),
+    use_cands = [c for c in R.run_parallel([(K.k_render_field, (2, {'C13'})), (K.k_variable_field, (uq,)), (K.k_input_member, ('struct', uq)),
                                             (K.k_input_member, ('oneof', uq))]) if c['prop'] == 'C13']
 
     # --- differential self-test of the engine on concrete inputs (also exercises the three positions)
